@@ -6,6 +6,9 @@
 //! `get2(i) == (v[i], v[i+1])`, `get_block == the block`.  Incremental construction (`push`) is an E2 case that
 //! pushes the sequence one element at a time and re-reads the whole prefix after every push.
 //!
+//! Coverage audit: E1 subjects at the end of the file drive the MUTABLE containers (UintVecMin0 / ZipIntVec) through
+//! set / push_back / resize / shrink_to_fit / clear histories that start from a vector full of non-zero values.
+//!
 //! Constructor outcome: `Err` -> skip (the property allows it).  A panic of a constructor that returns `Result`
 //! is a violation (`construct/panic`); a panic of a constructor with no `Result` in its signature
 //! (UintVecMin0 / ZipIntVec, C++-style) is its only way to refuse and counts as a skip (`construct_panic`).
@@ -16,6 +19,7 @@ use zipora::blob_store::sorted_uint_vec::{SortedUintVecBuilder, SortedUintVecCon
 use zipora::containers::specialized::{IntVec, PackedInt, UintVector};
 use zipora::containers::{UintVecMin0, ZipIntVec};
 use zverif::enumr::{fail, Enum, EnumSpec};
+use zverif::seq::{Seq, SeqSpec};
 use zverif::util::catch;
 use zverif::{Ctx, Outcome, Subject, Tier, Value, Verdict};
 
@@ -64,6 +68,11 @@ pub enum Shape {
     HighBase { k: u8 },
     /// (7*i mod 13) << k: unsorted at every stride, range width k+4
     WideNoise { k: u8 },
+    /// (appended by the coverage audit) base + ((i / 128) mod 8) * 16 + (7*i mod 13), base = 2^k (0 for k = 0):
+    /// unsorted, every 128-element block has a tiny local range (4 bits) around a block minimum that differs from
+    /// block to block (7 bits) and — for k > 0 — a NON-ZERO smallest block minimum: the shape for which a
+    /// sample/offset block encoding beats one global min/max width
+    Saw { k: u8 },
 }
 
 #[derive(Clone, Debug, Hash, Serialize, Deserialize, PartialEq, Eq)]
@@ -184,6 +193,7 @@ pub fn expand(src: &Src, d: &Dom) -> Vec<i128> {
                     }
                     Shape::HighBase { k } => (1i128 << k) + ii % 3,
                     Shape::WideNoise { k } => ((7 * ii) % 13) << k,
+                    Shape::Saw { k } => (if k == 0 { 0 } else { 1i128 << k }) + ((ii / 128) % 8) * 16 + (7 * ii) % 13,
                 };
                 v.push(d.clamp(x));
             }
@@ -196,6 +206,13 @@ fn grid_lengths(tier: Tier) -> Vec<u32> {
     let mut v = vec![0, 1, 2, 3, 4, 5, 7, 8, 9, 15, 16, 17, 31, 32, 33, 63, 64, 65, 127, 128, 129, 255, 256, 257, 1000, 1001];
     if tier == Tier::Thorough {
         v.extend_from_slice(&[1023, 1024, 1025, 2048, 2049, 4097, 10000, 10001, 17409]);
+        // appended by the coverage audit: `len * size_of::<T>() / 1024 <= 16` for 1-byte elements flips between
+        // 17407 and 17408 elements (the grid only had 17409)
+        v.extend_from_slice(&[17407, 17408]);
+    } else {
+        // appended by the coverage audit: the quick tier never reached the switches above 1001 elements
+        // (uniform-delta detection `len <= 1024`, SIMD window 65..=2048) although they cost next to nothing
+        v.extend_from_slice(&[1023, 1024, 1025, 2048, 2049]);
     }
     v
 }
@@ -247,6 +264,20 @@ fn shapes(d: &Dom) -> Vec<Shape> {
             v.push(Shape::TwoVal { k, plus: true });
             v.push(Shape::Step { k, plus: true });
             v.push(Shape::HighBase { k });
+        }
+    }
+    // appended by the coverage audit: steps of exactly 2^k - 1 / 2^k for the offset and sample widths of the SortedUintVec
+    // configurations that the list above does not name (12, 13, 20, 55), and the block-local shape
+    for k in [12u8, 13, 20, 55] {
+        if k as u32 >= maxk {
+            continue;
+        }
+        v.push(Shape::Step { k, plus: false });
+        v.push(Shape::Step { k, plus: true });
+    }
+    for k in [0u8, 6, 14, 40, 62] {
+        if k == 0 || (k as u32) + 1 < maxk {
+            v.push(Shape::Saw { k });
         }
     }
     v
@@ -462,6 +493,10 @@ pub struct Spec {
     pub max_len_thorough: usize,
     pub what: &'static str,
     pub run: Box<dyn Fn(&[i128]) -> Outcome>,
+    /// additional grid points enumerated after S and G (coverage audit)
+    pub extra: Vec<Src>,
+    /// enumerate `extra` only
+    pub only_extra: bool,
 }
 
 impl EnumSpec for Spec {
@@ -470,10 +505,13 @@ impl EnumSpec for Spec {
         self.name.clone()
     }
     fn space(&self, tier: Tier) -> String {
+        if self.only_extra {
+            return format!("element domain [{}, {}]; exactly these grid points: {:?}; {}", self.dom.min, self.dom.max, self.extra, self.what);
+        }
         let ml = tier.pick(self.max_len_quick, self.max_len_thorough);
         let lens: Vec<u32> = grid_lengths(tier).into_iter().filter(|&l| l as usize <= ml).collect();
         format!(
-            "element domain [{}, {}]; S = all sequences of length <= {} over {:?}; G = lengths {:?} x {} shapes (constants, ascending steps {{0,1,2^31,2^62}} from 0 and from MIN, small range low/high, alternating MIN/MAX, one MAX (MIN) outlier at first/mid/index 63/last among 0..3, all bits used, ascending with a dip at index 1, sorted equal runs, sorted with one 2^40 jump, two-valued {{0, 2^k-1}} / {{0, 2^k}} alternating and stepped for k in 1..=64, large base 2^k with range 3, (7i mod 13) << k){}; {}",
+            "element domain [{}, {}]; S = all sequences of length <= {} over {:?}; G = lengths {:?} x {} shapes (constants, ascending steps {{0,1,2^31,2^62}} from 0 and from MIN, small range low/high, alternating MIN/MAX, one MAX (MIN) outlier at first/mid/index 63/last among 0..3, all bits used, ascending with a dip at index 1, sorted equal runs, sorted with one 2^40 jump, two-valued {{0, 2^k-1}} / {{0, 2^k}} alternating and stepped for k in 1..=64, large base 2^k with range 3, (7i mod 13) << k, block-local saw 2^k + ((i/128) mod 8)*16 + (7i mod 13)){}; {}",
             self.dom.min,
             self.dom.max,
             tier.pick(self.small_len_quick, self.small_len_thorough),
@@ -487,15 +525,27 @@ impl EnumSpec for Spec {
     fn cases(&self, tier: Tier, f: &mut dyn FnMut(Src) -> bool) {
         let d = self.dom;
         let sorted_only = self.sorted_only;
-        enumerate(tier, &d, tier.pick(self.small_len_quick, self.small_len_thorough), tier.pick(self.max_len_quick, self.max_len_thorough), &mut |src| {
-            if sorted_only {
-                let v = expand(&src, &d);
-                if v.windows(2).any(|w| w[0] > w[1]) {
-                    return true;
+        let mut stopped = false;
+        if !self.only_extra {
+            enumerate(tier, &d, tier.pick(self.small_len_quick, self.small_len_thorough), tier.pick(self.max_len_quick, self.max_len_thorough), &mut |src| {
+                if sorted_only {
+                    let v = expand(&src, &d);
+                    if v.windows(2).any(|w| w[0] > w[1]) {
+                        return true;
+                    }
+                }
+                let go = f(src);
+                stopped |= !go;
+                go
+            });
+        }
+        if !stopped {
+            for src in &self.extra {
+                if !f(src.clone()) {
+                    return;
                 }
             }
-            f(src)
-        });
+        }
     }
     fn run(&self, case: &Src) -> Outcome {
         let v = expand(case, &self.dom);
@@ -521,7 +571,7 @@ impl Subject for Counted {
 }
 
 fn spec(name: &str, dom: Dom, what: &'static str, run: impl Fn(&[i128]) -> Outcome + 'static) -> Spec {
-    Spec { name: name.to_string(), dom, sorted_only: false, small_len_quick: 5, small_len_thorough: 6, max_len_quick: 1001, max_len_thorough: 17409, what, run: Box::new(run) }
+    Spec { name: name.to_string(), dom, sorted_only: false, small_len_quick: 5, small_len_thorough: 6, max_len_quick: 2049, max_len_thorough: 17409, what, run: Box::new(run), extra: Vec::new(), only_extra: false }
 }
 
 // ---------------------------------------------------------------------------------------------
@@ -562,11 +612,57 @@ elem!(i16, 16, true);
 elem!(i32, 32, true);
 elem!(i64, 64, true);
 
+/// Unsorted grid points just above the switch to `analyze_optimal_strategy` (`len > 10000` and more than 16 KiB of
+/// elements): the only place where IntVec compares MinMax / Delta / BlockBased and may pick the sample+offset block
+/// encoding.  The full grid reaches these lengths in the thorough tier only; these few points are cheap enough for both.
+fn optimal_path_points(d: &Dom, elem_bytes: usize) -> Vec<Src> {
+    let len: u32 = if elem_bytes == 1 { 17409 } else { 10001 };
+    let maxk = if d.signed() { d.bits - 1 } else { d.bits };
+    let mut sh = vec![Shape::Const(1), Shape::SmallRange { high: false }, Shape::SmallRange { high: true }, Shape::AltMinMax, Shape::AllBits, Shape::DipAt1];
+    for at in [Where::First, Where::Mid, Where::BlockEnd, Where::Last] {
+        sh.push(Shape::Outlier { at, min: false });
+    }
+    for k in [0u8, 6, 14, 40, 62] {
+        if k == 0 || (k as u32) + 1 < maxk {
+            sh.push(Shape::Saw { k });
+        }
+    }
+    for k in [4u8, 20, 44, 56] {
+        if (k as u32) + 4 <= maxk {
+            sh.push(Shape::WideNoise { k });
+        }
+    }
+    for k in [1u8, 8, 16, 33, 47, 48, 58, 59, 63, 64] {
+        if k as u32 > maxk {
+            continue;
+        }
+        sh.push(Shape::TwoVal { k, plus: false });
+        if (k as u32) < maxk {
+            sh.push(Shape::TwoVal { k, plus: true });
+            sh.push(Shape::HighBase { k });
+        }
+    }
+    let mut v: Vec<Src> = sh.into_iter().map(|shape| Src::G { len, shape }).collect();
+    // the same shapes one block longer / exactly on a 128-element block boundary
+    for l in [len + 127, if elem_bytes == 1 { 17408 + 128 } else { 10112 }] {
+        for k in [0u8, 6] {
+            v.push(Src::G { len: l, shape: Shape::Saw { k } });
+        }
+    }
+    v
+}
+
 fn intvec_specs<T: Elem>(out: &mut Vec<Spec>) {
     type Ctor<T> = fn(&[T]) -> zipora::error::Result<IntVec<T>>;
     let ctors: [(&str, Ctor<T>); 3] = [("from_slice", IntVec::<T>::from_slice), ("from_slice_bulk", IntVec::<T>::from_slice_bulk), ("from_slice_bulk_simd", IntVec::<T>::from_slice_bulk_simd)];
     for (cname, ctor) in ctors {
-        out.push(spec(&format!("IntVec/{}<{}>", cname, T::NAME), T::dom(), "reads: get(i) for every i, get(len), get(len+7), len", move |vals| {
+        for optimal in [false, true] {
+        // the bulk constructor delegates to from_slice: one optimal-path subject per element type is enough
+        if optimal && cname != "from_slice" {
+            continue;
+        }
+        let sname = if optimal { format!("IntVec/{}<{}>/n>10000", cname, T::NAME) } else { format!("IntVec/{}<{}>", cname, T::NAME) };
+        let mut sp = spec(&sname, T::dom(), "reads: get(i) for every i, get(len), get(len+7), len; the same reads on a clone()", move |vals| {
             let input: Vec<T> = vals.iter().map(|&v| T::from_i128(v)).collect();
             let iv = match catch(|| ctor(&input)) {
                 Ok(Ok(iv)) => iv,
@@ -585,8 +681,30 @@ fn intvec_specs<T: Elem>(out: &mut Vec<Spec>) {
                 o => o,
             };
             let r = Reader { len: iv.len(), get: &get_img, get2: None, oob_panics_documented: false, class_of: &|v: &[i128]| generic_class(v, std::mem::size_of::<T>()) };
-            check_reads(&img, &r).unwrap_or_else(|| pass(&img))
-        }));
+            if let Some(o) = check_reads(&img, &r) {
+                return o;
+            }
+            // Clone is written by hand (strategy, data, index, len): the clone must answer like the original
+            let cl = iv.clone();
+            let n = img.len();
+            let probes: Vec<usize> = if n <= 64 { (0..n).collect() } else { vec![0, 1, n / 2, 127.min(n - 1), 128.min(n - 1), n - 2, n - 1] };
+            for i in probes {
+                let got = catch(|| cl.get(i)).ok().flatten().map(|x| x.to_u64() as i128);
+                if got != Some(img[i]) {
+                    return fail("clone", format!("wrong_value/{}", generic_class(&img, std::mem::size_of::<T>())), format!("clone().get({i}) = {:?}, stored {}", got, img[i]));
+                }
+            }
+            if cl.len() != n || catch(|| cl.get(n)).ok().flatten().is_some() {
+                return fail("clone", "len", format!("clone().len() = {}, get(len) = {:?}; {} values were stored", cl.len(), catch(|| cl.get(n)).ok().flatten().map(|x| x.to_u64()), n));
+            }
+            pass(&img)
+        });
+        if optimal {
+            sp.extra = optimal_path_points(&T::dom(), std::mem::size_of::<T>());
+            sp.only_extra = true;
+        }
+        out.push(sp);
+        }
     }
 }
 
@@ -804,23 +922,43 @@ fn other_specs(out: &mut Vec<Spec>) {
     out.push(s);
 
     // ---- SortedUintVec: every log2_block_units, the three presets and two extreme width combinations
-    let mut cfgs: Vec<(String, SortedUintVecConfig)> = Vec::new();
+    let mut cfgs: Vec<(String, SortedUintVecConfig, Option<Dom>)> = Vec::new();
     for l in 4..=8u8 {
-        cfgs.push((format!("log2={l},ow=16,sw=32"), SortedUintVecConfig { log2_block_units: l, offset_width: 16, sample_width: 32, use_simd: l % 2 == 0 }));
-        cfgs.push((format!("log2={l},ow=32,sw=64"), SortedUintVecConfig { log2_block_units: l, offset_width: 32, sample_width: 64, use_simd: l % 2 == 1 }));
+        cfgs.push((format!("log2={l},ow=16,sw=32"), SortedUintVecConfig { log2_block_units: l, offset_width: 16, sample_width: 32, use_simd: l % 2 == 0 }, None));
+        cfgs.push((format!("log2={l},ow=32,sw=64"), SortedUintVecConfig { log2_block_units: l, offset_width: 32, sample_width: 64, use_simd: l % 2 == 1 }, None));
     }
-    cfgs.push(("default".into(), SortedUintVecConfig::default()));
-    cfgs.push(("performance_optimized".into(), SortedUintVecConfig::performance_optimized()));
-    cfgs.push(("memory_optimized".into(), SortedUintVecConfig::memory_optimized()));
-    cfgs.push(("log2=6,ow=13,sw=61,simd".into(), SortedUintVecConfig { log2_block_units: 6, offset_width: 13, sample_width: 61, use_simd: true }));
-    cfgs.push(("log2=6,ow=13,sw=61,portable".into(), SortedUintVecConfig { log2_block_units: 6, offset_width: 13, sample_width: 61, use_simd: false }));
-    cfgs.push(("log2=5,ow=8,sw=16,simd".into(), SortedUintVecConfig { log2_block_units: 5, offset_width: 8, sample_width: 16, use_simd: true }));
-    for (cn, cfg) in cfgs {
+    cfgs.push(("default".into(), SortedUintVecConfig::default(), None));
+    cfgs.push(("performance_optimized".into(), SortedUintVecConfig::performance_optimized(), None));
+    cfgs.push(("memory_optimized".into(), SortedUintVecConfig::memory_optimized(), None));
+    // (sample_width 61 is refused by validate() since the repair of the nine-byte field defect: these two subjects
+    // are kept for the stability of their names, every case is a constructor refusal)
+    cfgs.push(("log2=6,ow=13,sw=61,simd".into(), SortedUintVecConfig { log2_block_units: 6, offset_width: 13, sample_width: 61, use_simd: true }, None));
+    cfgs.push(("log2=6,ow=13,sw=61,portable".into(), SortedUintVecConfig { log2_block_units: 6, offset_width: 13, sample_width: 61, use_simd: false }, None));
+    cfgs.push(("log2=5,ow=8,sw=16,simd".into(), SortedUintVecConfig { log2_block_units: 5, offset_width: 8, sample_width: 16, use_simd: true }, None));
+    // appended by the coverage audit: widths that are NOT multiples of 8 (every sample / delta field starts at a
+    // different bit offset inside its byte; every sample width of the list above is byte-aligned), the largest width
+    // below 64 that validate() accepts (56), both bit-extraction back ends, and a small-scope alphabet that straddles
+    // 2^offset_width and 2^sample_width of the configuration itself (the fixed alphabet above only does so for 16/32)
+    for (l, ow, sw, simd) in [(6u8, 13u8, 56u8, true), (6, 13, 56, false), (4, 9, 17, true), (5, 9, 17, false), (6, 31, 55, true), (7, 31, 55, false), (6, 12, 33, false), (8, 20, 47, true), (4, 32, 64, false)] {
+        let alpha = [0i128, (1i128 << ow) - 1, 1i128 << ow, (1i128 << sw) - 1, if sw < 64 { 1i128 << sw } else { (1i128 << 64) - 2 }];
+        cfgs.push((
+            format!("log2={l},ow={ow},sw={sw},{}/widths", if simd { "simd" } else { "portable" }),
+            SortedUintVecConfig { log2_block_units: l, offset_width: ow, sample_width: sw, use_simd: simd },
+            Some(Dom { alpha: Some(alpha), ..Dom::of_unsigned(64) }),
+        ));
+    }
+    for (cn, cfg0) in [("performance_optimized", SortedUintVecConfig::performance_optimized()), ("memory_optimized", SortedUintVecConfig::memory_optimized())] {
+        let (ow, sw) = (cfg0.offset_width, cfg0.sample_width);
+        let alpha = [0i128, (1i128 << ow) - 1, 1i128 << ow, (1i128 << sw) - 1, 1i128 << sw];
+        cfgs.push((format!("{cn}/widths"), cfg0, Some(Dom { alpha: Some(alpha), ..Dom::of_unsigned(64) })));
+    }
+    for (cn, cfg, dom_override) in cfgs {
+        let sdom = dom_override.unwrap_or(sortd);
         for ctor in ["push", "extend"] {
             if ctor == "extend" && !cn.starts_with("default") {
                 continue;
             }
-            let mut s = spec(&format!("SortedUintVec[{cn}]/{ctor}"), sortd, "builder push/extend of the whole sequence then finish(); reads: get(i) for every i, get(len), get(len+7), get2(i) for every pair, get_block(b) for every block compared with the block's values, get_block(num_blocks) refused, len", move |vals| {
+            let mut s = spec(&format!("SortedUintVec[{cn}]/{ctor}"), sdom, "builder push/extend of the whole sequence then finish(); reads: get(i) for every i, get(len), get(len+7), get2(i) for every pair, get_block(b) for every block compared with the block's values, get_block(num_blocks) refused, len", move |vals| {
                 let r = catch(|| -> zipora::error::Result<_> {
                     let mut b = SortedUintVecBuilder::with_config(cfg);
                     if ctor == "push" {
@@ -891,6 +1029,442 @@ fn other_specs(out: &mut Vec<Spec>) {
     }
 }
 
+// ---------------------------------------------------------------------------------------------
+// E1 — in-place mutation histories of the mutable containers (UintVecMin0 / ZipIntVec)
+//
+// The E2 subjects above write every slot exactly once into zeroed storage.  Here the container starts FULL of
+// non-zero values (built by new+set / new_empty+push_back / build_from_usize) and every history of
+// set (overwrite) / push_back / resize(0 | smaller | larger) / shrink_to_fit / clear is executed against a
+// `Vec<Option<u64>>` model (None = a slot whose content the API leaves unspecified: exposed by resize(larger));
+// after every step every known slot is read back with get / get2 / back and `size` is compared.
+// Value symbols are relative to the CURRENT bit width of the model: 0, 1, mask, 0xAA..&mask, 0x55..&mask
+// (A -> 5 and 5 -> A overwrite every bit with its complement) and mask+1 (push_back only: forces a wider field).
+// Slot symbols: 0, the slot that contains bit 64 of the packed array (a field that straddles the first u64 word
+// wherever the width does not divide 64), the last slot.
+// A documented-panic API (`set`, `push_back`, `get` have no Result) that panics = the operation is refused: the
+// model is unchanged and the container must still answer like the model.
+
+#[derive(Clone, Copy, Debug, PartialEq, Eq, Hash)]
+pub enum VSym {
+    Zero,
+    One,
+    Max,
+    A,
+    F5,
+    /// mask + 1: one bit wider than the current field
+    Wide,
+}
+
+#[derive(Clone, Copy, Debug, PartialEq, Eq, Hash)]
+pub enum SlotSym {
+    First,
+    /// the slot that contains bit 64 of the packed bit array (index 64 / bits)
+    Word,
+    Last,
+}
+
+#[derive(Clone, Copy, PartialEq, Eq, Hash)]
+pub enum MOp {
+    Set(SlotSym, VSym),
+    PushBack(VSym),
+    ResizeZero,
+    /// resize(size - 3)
+    ResizeSmaller,
+    /// resize(size + 3): the new slots are unspecified until they are set
+    ResizeLarger,
+    ShrinkToFit,
+    Clear,
+}
+
+impl std::fmt::Debug for MOp {
+    fn fmt(&self, f: &mut std::fmt::Formatter<'_>) -> std::fmt::Result {
+        match self {
+            MOp::Set(s, v) => write!(f, "Set({:?},{:?})", s, v),
+            MOp::PushBack(v) => write!(f, "PushBack({:?})", v),
+            MOp::ResizeZero => write!(f, "Resize(0)"),
+            MOp::ResizeSmaller => write!(f, "Resize(size-3)"),
+            MOp::ResizeLarger => write!(f, "Resize(size+3)"),
+            MOp::ShrinkToFit => write!(f, "ShrinkToFit"),
+            MOp::Clear => write!(f, "Clear"),
+        }
+    }
+}
+
+#[derive(Clone, Copy, Debug, PartialEq, Eq)]
+pub enum MutKind {
+    Min0,
+    Zip,
+}
+
+#[derive(Clone, Copy, Debug, PartialEq, Eq)]
+pub enum MutStart {
+    NewSet,
+    PushBack,
+    BuildFrom,
+}
+
+pub enum MutReal {
+    Min0(UintVecMin0),
+    Zip(ZipIntVec),
+}
+
+pub struct MutSt {
+    real: MutReal,
+    /// absolute values (base + wire value); None = unspecified content
+    vals: Vec<Option<u64>>,
+    /// bit width of the wire values according to the documented growth rule (max over what was stored)
+    bits: u32,
+    /// ZipIntVec min_val (0 for UintVecMin0)
+    base: u64,
+}
+
+pub struct MutSpec {
+    pub kind: MutKind,
+    pub bits: u32,
+    pub start: MutStart,
+    pub depth_quick: usize,
+    pub depth_thorough: usize,
+}
+
+fn mask_of(bits: u32) -> u64 {
+    if bits == 0 {
+        0
+    } else if bits >= 64 {
+        u64::MAX
+    } else {
+        (1u64 << bits) - 1
+    }
+}
+
+fn bitlen(v: u64) -> u32 {
+    64 - v.leading_zeros()
+}
+
+impl MutSpec {
+    fn n0(&self) -> usize {
+        // enough slots for the one that contains bit 64 of the packed array
+        if self.bits == 1 {
+            70
+        } else {
+            12
+        }
+    }
+    /// wire value the scripted prefix stores in slot i: slot 0 = mask (fixes the width), slot 1 = 0 for
+    /// build_from (so that min == base), every other slot non-zero with a mixed bit pattern
+    fn pat(&self, i: usize) -> u64 {
+        let m = mask_of(self.bits);
+        match i {
+            0 => m,
+            1 if self.start == MutStart::BuildFrom => 0,
+            _ => ((0x9E37_79B9_7F4A_7C15u64.wrapping_mul(i as u64 + 1)) >> 3 | 1) & m,
+        }
+    }
+    fn resolve(v: VSym, bits: u32) -> u64 {
+        let m = mask_of(bits);
+        match v {
+            VSym::Zero => 0,
+            VSym::One => 1.min(m),
+            VSym::Max => m,
+            VSym::A => 0xAAAA_AAAA_AAAA_AAAA & m,
+            VSym::F5 => 0x5555_5555_5555_5555 & m,
+            VSym::Wide => m + 1,
+        }
+    }
+    fn slot(s: SlotSym, st: &MutSt) -> Option<usize> {
+        let n = st.vals.len();
+        if n == 0 {
+            return None;
+        }
+        match s {
+            SlotSym::First => Some(0),
+            SlotSym::Word => {
+                let w = 64 / st.bits.max(1) as usize;
+                if w > 0 && w < n - 1 {
+                    Some(w)
+                } else {
+                    None
+                }
+            }
+            SlotSym::Last => {
+                if n > 1 {
+                    Some(n - 1)
+                } else {
+                    None
+                }
+            }
+        }
+    }
+}
+
+impl MutReal {
+    fn size(&self) -> usize {
+        match self {
+            MutReal::Min0(v) => v.size(),
+            MutReal::Zip(v) => v.size(),
+        }
+    }
+    fn is_empty(&self) -> bool {
+        match self {
+            MutReal::Min0(v) => v.is_empty(),
+            MutReal::Zip(v) => v.is_empty(),
+        }
+    }
+    fn get(&self, i: usize) -> Result<u64, zverif::Fail> {
+        match self {
+            MutReal::Min0(v) => catch(|| v.get(i) as u64),
+            MutReal::Zip(v) => catch(|| v.get(i) as u64),
+        }
+    }
+    fn get2(&self, i: usize) -> Result<[u64; 2], zverif::Fail> {
+        match self {
+            MutReal::Min0(v) => catch(|| v.get2(i)).map(|[a, b]| [a as u64, b as u64]),
+            MutReal::Zip(v) => catch(|| v.get2(i)).map(|[a, b]| [a as u64, b as u64]),
+        }
+    }
+    fn back(&self) -> Result<u64, zverif::Fail> {
+        match self {
+            MutReal::Min0(v) => catch(|| v.back() as u64),
+            MutReal::Zip(v) => catch(|| v.back() as u64),
+        }
+    }
+    /// absolute value (ZipIntVec takes absolute values, UintVecMin0 has base 0)
+    fn set(&mut self, i: usize, abs: u64) -> Result<(), zverif::Fail> {
+        match self {
+            MutReal::Min0(v) => catch(|| v.set(i, abs as usize)),
+            MutReal::Zip(v) => catch(|| v.set(i, abs as usize)),
+        }
+    }
+    fn push_back(&mut self, abs: u64) -> Result<(), zverif::Fail> {
+        match self {
+            MutReal::Min0(v) => catch(|| v.push_back(abs as usize)),
+            MutReal::Zip(v) => catch(|| v.push_back(abs as usize)),
+        }
+    }
+    fn resize(&mut self, n: usize) -> Result<(), zverif::Fail> {
+        match self {
+            MutReal::Min0(v) => catch(|| v.resize(n)),
+            MutReal::Zip(v) => catch(|| v.resize(n)),
+        }
+    }
+    fn shrink_to_fit(&mut self) -> Result<(), zverif::Fail> {
+        match self {
+            MutReal::Min0(v) => catch(|| v.shrink_to_fit()),
+            MutReal::Zip(v) => catch(|| v.shrink_to_fit()),
+        }
+    }
+    fn clear(&mut self) -> Result<(), zverif::Fail> {
+        match self {
+            MutReal::Min0(v) => catch(|| v.clear()),
+            MutReal::Zip(v) => catch(|| v.clear()),
+        }
+    }
+}
+
+impl SeqSpec for MutSpec {
+    type Op = MOp;
+    type St = MutSt;
+
+    fn name(&self) -> String {
+        format!(
+            "{}/mutate[bits={},start={}]",
+            if self.kind == MutKind::Min0 { "UintVecMin0" } else { "ZipIntVec" },
+            self.bits,
+            match self.start {
+                MutStart::NewSet => "new+set",
+                MutStart::PushBack => "push_back",
+                MutStart::BuildFrom => "build_from_usize",
+            }
+        )
+    }
+    fn depth(&self, tier: Tier) -> usize {
+        tier.pick(self.depth_quick, self.depth_thorough)
+    }
+    fn bound(&self, tier: Tier) -> String {
+        format!(
+            "start: {} slots of {} bits, all but at most one non-zero, built by {:?}{}; all histories of <= {} mutators from {{set(slot, v) slot in [0, slot containing bit 64 of the packed array, last] x v in [0, 1, mask, 0xAA..&mask, 0x55..&mask]; push_back(v) v in the same values and mask+1 (forces a wider field); resize(0), resize(size-3), resize(size+3); shrink_to_fit; clear}}; value symbols are relative to the current width; after every step: size, is_empty, get(i) of every slot whose content is specified, get(size) refused, get2(i) of every specified pair, back",
+            self.n0(),
+            self.bits,
+            self.start,
+            if self.kind == MutKind::Zip && self.start != MutStart::PushBack { ", min_val 1000" } else { "" },
+            self.depth(tier)
+        )
+    }
+    fn init(&self, _scratch: &std::path::Path) -> Result<MutSt, zverif::Fail> {
+        let n = self.n0();
+        let base: u64 = if self.kind == MutKind::Zip && self.start != MutStart::PushBack { 1000 } else { 0 };
+        let m = mask_of(self.bits);
+        let wire: Vec<u64> = (0..n).map(|i| self.pat(i)).collect();
+        let abs: Vec<u64> = wire.iter().map(|w| w + base).collect();
+        let built = catch(|| match (self.kind, self.start) {
+            (MutKind::Min0, MutStart::NewSet) => {
+                let mut v = UintVecMin0::new(n, m as usize);
+                for (i, &x) in abs.iter().enumerate() {
+                    v.set(i, x as usize);
+                }
+                MutReal::Min0(v)
+            }
+            (MutKind::Min0, MutStart::PushBack) => {
+                let mut v = UintVecMin0::new_empty();
+                for &x in &abs {
+                    v.push_back(x as usize);
+                }
+                MutReal::Min0(v)
+            }
+            (MutKind::Min0, MutStart::BuildFrom) => {
+                let input: Vec<usize> = abs.iter().map(|&x| x as usize).collect();
+                MutReal::Min0(UintVecMin0::build_from_usize(&input).0)
+            }
+            (MutKind::Zip, MutStart::NewSet) => {
+                let mut v = ZipIntVec::new(n, base as usize, (base + m) as usize);
+                for (i, &x) in abs.iter().enumerate() {
+                    v.set(i, x as usize);
+                }
+                MutReal::Zip(v)
+            }
+            (MutKind::Zip, MutStart::PushBack) => {
+                let mut v = ZipIntVec::new_empty();
+                for &x in &abs {
+                    v.push_back(x as usize);
+                }
+                MutReal::Zip(v)
+            }
+            (MutKind::Zip, MutStart::BuildFrom) => {
+                let input: Vec<usize> = abs.iter().map(|&x| x as usize).collect();
+                MutReal::Zip(ZipIntVec::build_from_usize(&input))
+            }
+        });
+        let real = built.map_err(|pf| zverif::Fail::new("construct", format!("scripted prefix panicked: {}", pf.detail)))?;
+        Ok(MutSt { real, vals: abs.into_iter().map(Some).collect(), bits: self.bits, base })
+    }
+    fn ops(&self, st: &MutSt) -> Vec<MOp> {
+        let mut v = Vec::new();
+        let vals5 = [VSym::Zero, VSym::One, VSym::Max, VSym::A, VSym::F5];
+        for s in [SlotSym::First, SlotSym::Word, SlotSym::Last] {
+            if MutSpec::slot(s, st).is_some() {
+                for x in vals5 {
+                    v.push(MOp::Set(s, x));
+                }
+            }
+        }
+        for x in vals5 {
+            v.push(MOp::PushBack(x));
+        }
+        v.push(MOp::PushBack(VSym::Wide));
+        v.push(MOp::ResizeZero);
+        if st.vals.len() >= 4 {
+            v.push(MOp::ResizeSmaller);
+        }
+        v.push(MOp::ResizeLarger);
+        v.push(MOp::ShrinkToFit);
+        v.push(MOp::Clear);
+        v
+    }
+    fn apply(&self, st: &mut MutSt, op: &MOp) -> Result<(), zverif::Fail> {
+        match *op {
+            MOp::Set(s, x) => {
+                let i = MutSpec::slot(s, st).expect("enabled");
+                let abs = st.base + MutSpec::resolve(x, st.bits);
+                if st.real.set(i, abs).is_ok() {
+                    st.vals[i] = Some(abs);
+                }
+            }
+            MOp::PushBack(x) => {
+                let w = MutSpec::resolve(x, st.bits);
+                let abs = st.base + w;
+                if st.real.push_back(abs).is_ok() {
+                    st.vals.push(Some(abs));
+                    st.bits = st.bits.max(bitlen(w));
+                }
+            }
+            MOp::ResizeZero => {
+                if st.real.resize(0).is_ok() {
+                    st.vals.clear();
+                }
+            }
+            MOp::ResizeSmaller => {
+                let n = st.vals.len() - 3;
+                if st.real.resize(n).is_ok() {
+                    st.vals.truncate(n);
+                }
+            }
+            MOp::ResizeLarger => {
+                let n = st.vals.len() + 3;
+                if st.real.resize(n).is_ok() {
+                    st.vals.resize(n, None);
+                }
+            }
+            MOp::ShrinkToFit => {
+                let _ = st.real.shrink_to_fit();
+            }
+            MOp::Clear => {
+                if st.real.clear().is_ok() {
+                    st.vals.clear();
+                    st.bits = 0;
+                    st.base = 0;
+                }
+            }
+        }
+        Ok(())
+    }
+    fn observe(&self, st: &mut MutSt, h: &mut std::collections::hash_map::DefaultHasher) -> Result<(), zverif::Fail> {
+        use std::hash::Hash;
+        st.vals.hash(h);
+        st.bits.hash(h);
+        st.base.hash(h);
+        let n = st.vals.len();
+        let width = format!("bits={}", st.bits);
+        let mf = |clause: &str, class: &str, detail: String| zverif::Fail::new(clause, detail).with_class(format!("{class}/{width}"));
+        if st.real.size() != n {
+            return Err(mf("len", "wrong", format!("size() = {}, the model holds {} slots", st.real.size(), n)));
+        }
+        if st.real.is_empty() != (n == 0) {
+            return Err(mf("len", "is_empty", format!("is_empty() = {}, the model holds {} slots", st.real.is_empty(), n)));
+        }
+        rd(n + 1);
+        for i in 0..n {
+            if let Some(want) = st.vals[i] {
+                match st.real.get(i) {
+                    Ok(got) if got == want => {}
+                    Ok(got) => return Err(mf("get", "wrong_value", format!("get({i}) = {got:#x}, last value stored in that slot {want:#x} (n={n}, {width})"))),
+                    Err(pf) => return Err(mf("get", "panic_in_range", format!("get({i}) with {n} slots: {}", pf.detail))),
+                }
+            }
+        }
+        if let Ok(got) = st.real.get(n) {
+            return Err(mf("get_past_end", "returns_value/i==len", format!("get({n}) = {got:#x} with only {n} slots")));
+        }
+        for i in 0..n.saturating_sub(1) {
+            if let (Some(a), Some(b)) = (st.vals[i], st.vals[i + 1]) {
+                match st.real.get2(i) {
+                    Ok([x, y]) if x == a && y == b => {}
+                    Ok([x, y]) => return Err(mf("get2", "wrong_value", format!("get2({i}) = ({x:#x}, {y:#x}), stored ({a:#x}, {b:#x})"))),
+                    Err(pf) => return Err(mf("get2", "panic_in_range", format!("get2({i}) with {n} slots: {}", pf.detail))),
+                }
+            }
+        }
+        if n > 0 {
+            if let Some(want) = st.vals[n - 1] {
+                match st.real.back() {
+                    Ok(got) if got == want => {}
+                    Ok(got) => return Err(mf("get", "back_wrong_value", format!("back() = {got:#x}, last slot holds {want:#x}"))),
+                    Err(pf) => return Err(mf("get", "back_panic", format!("back() with {n} slots: {}", pf.detail))),
+                }
+            }
+        }
+        Ok(())
+    }
+}
+
+fn mutate_specs(reg: &mut zverif::Registry) {
+    for kind in [MutKind::Min0, MutKind::Zip] {
+        for bits in [1u32, 7, 8, 9, 31, 32, 33, 57, 58] {
+            for start in [MutStart::NewSet, MutStart::PushBack, MutStart::BuildFrom] {
+                reg.add(Seq(MutSpec { kind, bits, start, depth_quick: 3, depth_thorough: 4 }));
+            }
+        }
+    }
+}
+
 fn main() {
     zverif::main_with("C09", |reg, _tier| {
         let mut v = Vec::new();
@@ -907,5 +1481,6 @@ fn main() {
         for s in v {
             reg.add(Counted(Enum(s)));
         }
+        mutate_specs(reg);
     });
 }
